@@ -84,6 +84,58 @@ func hasQuant(t *Term) bool {
 
 func smtFile(o *Obligation, slice bool) string { return smtFileQ(o, slice, false) }
 
+// nonlinear: products of two non-literals, division by a non-literal, sqrt / powr applications
+func nonlinear(t *Term) bool {
+	lit := func(x *Term) bool { return x.Op == "int" || x.Op == "real" }
+	switch t.Op {
+	case "*":
+		n := 0
+		for _, a := range t.Args {
+			if !lit(a) && !(a.Op == "to_real" && len(a.Args) == 1 && lit(a.Args[0])) {
+				n++
+			}
+		}
+		if n >= 2 {
+			return true
+		}
+	case "/", "div", "mod":
+		if len(t.Args) == 2 && !lit(t.Args[1]) && !(t.Args[1].Op == "to_real" && lit(t.Args[1].Args[0])) {
+			return true
+		}
+	case "app":
+		if t.Name == "sqrt" || t.Name == "powr" {
+			return true
+		}
+	}
+	for _, a := range t.Args {
+		if nonlinear(a) {
+			return true
+		}
+	}
+	return false
+}
+
+// smtFileLinear: the sliced problem without the hypotheses that need nonlinear arithmetic. Fewer hypotheses, so
+// unsat is sound; it keeps index/bookkeeping goals away from the nonlinear solver. "" when there is nothing to drop.
+func smtFileLinear(o *Obligation) string {
+	if nonlinear(o.Goal) {
+		return ""
+	}
+	hyps := sliceHyps(o.Hyps, o.Goal)
+	var h2 []*Term
+	for _, h := range hyps {
+		if !nonlinear(h) {
+			h2 = append(h2, h)
+		}
+	}
+	if len(h2) == len(hyps) {
+		return ""
+	}
+	o2 := *o
+	o2.Hyps = h2
+	return smtFileQ(&o2, false, false)
+}
+
 func smtFileQ(o *Obligation, slice bool, dropQuant bool) string {
 	hyps := o.Hyps
 	if slice {
@@ -221,6 +273,13 @@ func runSolver(ctx context.Context, solver, file string, timeout time.Duration) 
 	case "z3-new":
 		cmd = exec.CommandContext(ctx, "z3-new", fmt.Sprintf("-T:%d", secs), file)
 	case "cvc5":
+		// cvc5 reserves sqrt: give it the same problem with the uninterpreted symbol renamed
+		if b, err := os.ReadFile(file); err == nil && bytes.Contains(b, []byte("(declare-fun sqrt ")) {
+			b = bytes.ReplaceAll(b, []byte("(declare-fun sqrt "), []byte("(declare-fun sqrt_r "))
+			b = bytes.ReplaceAll(b, []byte("(sqrt "), []byte("(sqrt_r "))
+			file = file + ".cvc5.smt2"
+			os.WriteFile(file, b, 0o644)
+		}
 		cmd = exec.CommandContext(ctx, "cvc5", fmt.Sprintf("--tlimit=%d", secs*1000), file)
 	}
 	var out bytes.Buffer
@@ -282,6 +341,14 @@ func discharge(o *Obligation, dir string, timeout time.Duration, idx int) {
 			if r.result == "sat" {
 				o.CandModel = modelOf(r.out)
 			}
+		}
+	}
+	if o.smtLin != "" && o.Kind != "cover" {
+		fl := fname + ".lin.smt2"
+		os.WriteFile(fl, []byte(o.smtLin), 0o644)
+		if r := runSolver(context.Background(), "z3-new", fl, 3*time.Second); r.result == "unsat" {
+			o.Result, o.Solver, o.Time = "unsat", "z3-new(linear)", time.Since(t0).Seconds()
+			return
 		}
 	}
 	quick := runSolver(context.Background(), "z3-new", fname, 3*time.Second)
@@ -397,6 +464,9 @@ func dischargeAll(obls []*Obligation, dir string, timeout time.Duration, par int
 		o.smtSliced = smtFile(o, true)
 		if o.Kind != "cover" && !hasQuant(o.Goal) {
 			o.smtQF = smtFileQ(o, true, true)
+		}
+		if o.Kind != "cover" {
+			o.smtLin = smtFileLinear(o)
 		}
 	}
 	var wg sync.WaitGroup
